@@ -317,7 +317,7 @@ def rule_no_shared_state(ctx) -> None:
         for st in m.tree.body:
             if isinstance(st, (ast.Assign, ast.AnnAssign)) and st.value is not None and mutable_ctor(st.value):
                 for t in (st.targets if isinstance(st, ast.Assign) else [st.target]):
-                    if isinstance(t, ast.Name) and not t.id.isupper() and not t.id.startswith("__all"):
+                    if isinstance(t, ast.Name) and not t.id.startswith("__all"):
                         shared.setdefault("", set()).add(t.id)
             if isinstance(st, ast.ClassDef):
                 n_cls += 1
